@@ -20,9 +20,11 @@ import (
 	"os"
 	"os/exec"
 	"regexp"
+	"runtime"
 	"sort"
 	"strings"
 	"sync"
+	"sync/atomic"
 	"time"
 
 	"github.com/zerx-lab/wordZero/pkg/document"
@@ -150,26 +152,34 @@ func runIsoRace(c Case, emit Emitter) {
 func runIsoRaceChild(c Case, emit Emitter) {
 	x := isoExtraOf(c)
 	names, progs := isoPrograms(c.Steps)
+	isoNoSync = true
 	for r := 0; r < x.Rounds; r++ {
 		document.VerifResetGlobals()
 		docs := map[string]*isoDoc{}
 		for _, d := range names {
 			docs[d] = isoNewDoc(d)
 		}
-		start := make(chan struct{})
+		// start barrier: every goroutine spins until all are running, so that the programs really
+		// overlap (the barrier orders only what happens before it)
+		var ready int32
+		n := int32(len(names))
 		var wg sync.WaitGroup
 		for _, d := range names {
 			wg.Add(1)
 			st, prog := docs[d], append(append([]Op{}, progs[d]...), isoFinalOp)
 			go func() {
 				defer wg.Done()
-				<-start
+				atomic.AddInt32(&ready, 1)
+				for i := 0; atomic.LoadInt32(&ready) < n; i++ {
+					if i > 1<<10 {
+						runtime.Gosched()
+					}
+				}
 				for _, op := range prog {
 					isoExec(st, op)
 				}
 			}()
 		}
-		close(start)
 		wg.Wait()
 		vs := map[string]interface{}{}
 		for _, d := range names {
